@@ -1046,4 +1046,41 @@ func backoffs(r *ev.Run) {
 		}
 	}
 	r.Extra("backoff_samples", idx)
+	// every signer's retries share the default configuration: its delays are computed from several goroutines at once
+	if c := r.Case("backoff-concurrent", 0); c != nil {
+		r.Eval(1)
+		var wg sync.WaitGroup
+		var bad atomic.Int64
+		shared := &backoff.Config{BaseDelay: time.Second, Multiplier: 1.6, MaxDelay: 30 * time.Second, Jitter: 0.2}
+		n := r.Pick(150000, 1500000)
+		for g := 0; g < 8; g++ {
+			wg.Add(1)
+			go func(g int) {
+				defer wg.Done()
+				defer func() {
+					if p := recover(); p != nil {
+						if bad.Add(1) == 1 {
+							r.Violation(c, "panic:Backoff:concurrent-use", fmt.Sprintf("Backoff called from 8 goroutines at once panicked: %v", p), nil)
+						}
+					}
+				}()
+				for i := 0; i < n; i++ {
+					for _, bc := range []*backoff.Config{&backoff.DefaultConfig, shared} {
+						d := bc.Backoff(uint(i % 9))
+						if lim := time.Duration(float64(bc.MaxDelay)*(1+bc.Jitter)) + 1; d < 0 || d > lim {
+							if bad.Add(1) == 1 {
+								r.Violation(c, "backoff-out-of-bounds:concurrent-use", fmt.Sprintf("Backoff(%d) = %s computed beside seven other goroutines; allowed [0, %s]", i%9, d, lim), nil)
+							}
+							return
+						}
+					}
+				}
+			}(g)
+		}
+		wg.Wait()
+		if bad.Load() == 0 {
+			r.Count("delays computed from eight goroutines at once, all within bounds", 16*n)
+			r.Nontrivial("backoff-concurrent")
+		}
+	}
 }
